@@ -52,7 +52,7 @@ def rand_chm(rng, big=False, nfiles=None, sec1=True, far_reset=False):
     p = dict(chunk_size=rng.choice([64, 100, 200, 512, 4096, 8192] if not big else [256, 512]), density=rng.choice([0, 1, 2, 3, 5, 9]), wbits=rng.choice([15, 16, 17, 18]),
              reset_frames=rng.choice([1, 2, 4]), version=rng.choice([1, 2, 3]), rt_entry_size=rng.choice([8, 8, 4]), control_version=rng.choice([1, 2]),
              content_last=rng.random() < 0.7, with_rtable=rng.random() < 0.8, with_index=rng.random() < 0.8,
-             rt_slack=rng.choice([0, 0, 8, 16, 5]))      # the reset table's entries need not follow its header directly
+             rt_slack=rng.choice([0, 0, 8, 16, 5]), gaps=rng.choice([(0, 0, 0), (0, 0, 0), (8, 0, 0), (0, 24, 0), (0, 0, 40), (3, 5, 7)]))      # the reset table's entries need not follow its header directly
     # long system names need a chunk that can hold them
     if far_reset: p.update(rt_entry_size=4, with_rtable=True, reset_frames=rng.choice([1, 2]), lzx_match_p=0.01)
     if f1 and p["chunk_size"] < 200: p["chunk_size"] = 200
